@@ -1,7 +1,7 @@
 """C18 - annotations and instructions survive conversion intact; line width is respected.
 
 Boundary recorder on skool2asm.main / skool2html.main / sna2skool.main (in-process). One generated document (entries with title,
-description, registers, start/mid-block/end comments, instruction comments over groups of 1..9 statements) is written (a) as a skool
+description, registers, start/mid-block/end comments, instruction comments over groups of 1..12 statements) is written (a) as a skool
 file with wrap points and brace encoding chosen by the generator and (b) as a control file plus image; the outputs are read back by
 readers written from the format descriptions (vk/ref/c18_ref.py) and compared, place by place, with the document.
 """
@@ -17,7 +17,7 @@ ID = 'C18'
 NEEDS_C = False
 LEVEL = 'exploration'
 RULE = ('random document (1-3 entries; title, 0-3 description paragraphs, 0-5 registers with prefixes / delimited names, start, mid-block and end '
-        'comments, 1-5 groups of 1-9 statements of code/DEFB/DEFM/DEFW/DEFS with operations up to ~80 characters; words of 1..width+30 characters aimed '
+        'comments, 1-5 groups of 1-12 statements of code/DEFB/DEFM/DEFW/DEFS with operations up to ~80 characters; words of 1..width+30 characters aimed '
         'at the column boundaries, texts that fill a column exactly or miss by one, punctuation, braces in every position, #LIST/#TABLE with '
         '<nowrap>/<wrapalign> and :w columns) x line width 40..200 x instruction width x indent/tab/crlf x comment-width-min; each document is '
         'converted by skool2asm (from a skool file laid out at random), skool2html (same file), sna2skool (from a control file) and sna2skool->skool2asm; '
